@@ -60,7 +60,12 @@ DeliverOne  == \E i \in ITEMS, t \in TIMES, v \in VALUES : Deliver(<<Msg(i, t, v
 DeliverSnapshot ==
   \E i, j \in ITEMS, t, u \in TIMES, v, w \in VALUES : i # j /\ Deliver(<<Msg(i, t, v), Msg(j, u, w)>>)
 
-Next == DeliverOne \/ DeliverSnapshot
+\* an operation on an item that is not an exchange report (the engine records a cancel request
+\* for the order, possibly repeatedly): what the exchange reported stays as it is
+Touch == /\ \E i \in ITEMS : last' = <<Msg(i, 0, 0)>>
+         /\ UNCHANGED <<held, delivered>>
+
+Next == DeliverOne \/ DeliverSnapshot \/ Touch
 Spec == Init /\ [][Next]_vars
 
 (***************************************************************************)
@@ -77,7 +82,7 @@ Latest == \A i \in ITEMS :
 \* an older message never overwrites newer state; other items are untouched
 NoRollbackA == \A i \in ITEMS :
                  /\ (held[i].has => held'[i].has /\ held'[i].t >= held[i].t)
-                 /\ ((\A k \in 1..Len(last') : last'[k].item # i) => held'[i] = held[i])
+                 /\ ((\A k \in 1..Len(last') : last'[k].item # i \/ last'[k].t = 0) => held'[i] = held[i])
 NoRollback == [][NoRollbackA]_vars
 
 View == <<held, delivered>>
